@@ -68,6 +68,13 @@ pub struct Case {
     /// every input value is multiplied by 2^scale_exp (exact): quiet signals, down to the subnormal range on the grid
     #[serde(default)]
     pub scale_exp: i16,
+    /// the node under test also has an edge onto itself (never presented as an input): 0 = none, 1 = added before the
+    /// input edges, 2 = added after them
+    #[serde(default)]
+    pub self_loop: u8,
+    /// inputs are silent except for one impulse every 193 samples (so whole blocks are exactly silent)
+    #[serde(default)]
+    pub sparse: bool,
 }
 
 /// 2^e as f32, e in -149..=127
@@ -81,7 +88,11 @@ fn pow2(e: i16) -> f32 {
 
 /// contents of buffer `b` of input node `node` in call `call`
 fn val(c: &Case, node: usize, b: usize, i: usize, call: usize) -> f32 {
+    if c.sparse && (call * LEN + i + node * 5 + b * 3) % 193 != c.salt as usize % 193 {
+        return 0.0;
+    }
     let k = ((node * 31 + b * 17 + i * 7 + call * 13 + c.salt as usize) % 257) as i32 - 128;
+    let k = if c.sparse && k == 0 { 64 } else { k };
     let v = k as f32 / 64.0;
     if c.exact {
         // k x 2^(e-6) is representable down to e = -143
@@ -129,9 +140,15 @@ fn sentinel_buffers(n: usize) -> Vec<Buffer> {
 fn run_in_graph<X: Node>(x: X, c: &Rc<Case>) -> Vec<Vec<Vec<f32>>> {
     let mut g: Graph<NodeData<TNode<X>>, ()> = Graph::with_capacity(0, 0);
     let test = g.add_node(NodeData::new(TNode::Test(x), sentinel_buffers(c.n_out)));
+    if c.self_loop % 3 == 1 {
+        g.add_edge(test, test, ());
+    }
     for (j, &nb) in c.bufs_in.iter().enumerate() {
         let n = g.add_node(NodeData::new(TNode::Const(ConstWriter { node: j, call: 0, case: c.clone() }), vec![Buffer::SILENT; nb]));
         g.add_edge(n, test, ());
+    }
+    if c.self_loop % 3 == 2 {
+        g.add_edge(test, test, ());
     }
     let mut p = Processor::with_capacity(c.bufs_in.len() + 1);
     let mut outs = Vec::new();
@@ -259,6 +276,8 @@ pub fn check(c0: &Case, st: &mut Stats) -> CheckResult {
     st.class_if(stateful && c.calls >= 2, "consecutive calls on a stateful node");
     st.class_if(c.wrapper != Wrapper::Bare, "wrapper");
     st.class_if(c.scale_exp <= -24 && c.kind != Kind::Signal, "input level below 2^-24");
+    st.class_if(c.self_loop % 3 != 0 && n_in > 0, "node with inputs and an edge onto itself");
+    st.class_if(c.sparse && c.kind == Kind::Delay && c.calls >= 3, "delay fed impulses separated by silent blocks");
     st.class_if(c.kind == Kind::Signal && c.sig_len.map_or(false, |l| l < c.calls * LEN), "signal node over a signal that ends during the run");
     st.class_if(c.kind == Kind::GraphNode && c.inner_kind % 3 != 0, "nested graph whose output node carries state between calls");
     let sentinel = |b: usize| vec![SENTINEL + b as f32; LEN];
@@ -451,15 +470,17 @@ pub fn case_strategy() -> impl Strategy<Value = Case> {
             prop_oneof![2 => Just(None), 1 => (0usize..300).prop_map(Some)],
             0u8..3,
             prop_oneof![3 => Just(0i16), 1 => proptest::sample::select(vec![-24i16, -30, -60, -100, -140]), 1 => -143i16..=0],
+            prop_oneof![2 => Just(0u8), 1 => 1u8..=2],
+            prop_oneof![3 => Just(false), 1 => Just(true)],
         )
-            .prop_map(move |(mut bufs_in, delay_lens, sig_channels, inner_bufs, sig_len, inner_kind, scale_exp)| {
+            .prop_map(move |(mut bufs_in, delay_lens, sig_channels, inner_bufs, sig_len, inner_kind, scale_exp, self_loop, sparse)| {
                 if kind == Kind::GraphNode {
                     let b0 = bufs_in.first().copied().unwrap_or(0);
                     for b in bufs_in.iter_mut() {
                         *b = b0;
                     }
                 }
-                Case { kind, wrapper: WRAPPERS[w], bufs_in, n_out, calls, exact, delay_lens, sig_channels, inner_bufs, salt: salt % 10_000, sig_len, inner_kind, scale_exp }
+                Case { kind, wrapper: WRAPPERS[w], bufs_in, n_out, calls, exact, delay_lens, sig_channels, inner_bufs, salt: salt % 10_000, sig_len, inner_kind, scale_exp, self_loop, sparse }
             })
     })
 }
@@ -468,10 +489,10 @@ pub fn run(ctx: &mut Ctx) {
     ctx.set_rule(
         "cases are (node kind out of Sum, SumBuffers, Pass, Delay, signal node, GraphNode; wrapper out of bare, &mut, Box, BoxedNode, BoxedNodeSend, Box<dyn FnMut>, Box<dyn Fn>, fn pointer; 0..6 inputs (Pass/Delay 0 or 1) with 0..4 buffers each, \
          0..4 output buffers (mismatched on purpose), 1..6 consecutive process calls with fresh input contents, exact (grid k/64) or inexact contents, scaled by 2^e with e down to -143 (quiet and subnormal signals), Delay ring lengths 1..200 per channel, signal frames of 1..4 channels, inner graph shape); \
-         inputs are supplied by constant-writer source nodes in a real graph; non-trivial: mismatched channel counts, zero inputs, >= 2 consecutive calls on a stateful node, or a wrapper",
+         inputs are supplied by constant-writer source nodes in a real graph (dense contents, or impulses 193 samples apart with silent blocks between them); the node under test may also carry an edge onto itself; non-trivial: mismatched channel counts, zero inputs, >= 2 consecutive calls on a stateful node, or a wrapper",
     );
     ctx.assume("Sum / SumBuffers compared with the exact sum on grid contents (input order irrelevant) and within n eps sum|x| otherwise; surplus outputs are pre-filled with a sentinel pattern and must stay untouched where the documentation says so; wrappers must be bit-identical to the bare node; dasp_graph is built against the crates.io 0.11.0 dasp_ring_buffer / dasp_signal / dasp_frame exactly as the repository's lock file resolves them");
-    for c in ["mismatched channel counts", "zero inputs", "consecutive calls on a stateful node", "wrapper", "input level below 2^-24", "signal node over a signal that ends during the run", "nested graph whose output node carries state between calls"] {
+    for c in ["mismatched channel counts", "zero inputs", "consecutive calls on a stateful node", "wrapper", "input level below 2^-24", "node with inputs and an edge onto itself", "delay fed impulses separated by silent blocks", "signal node over a signal that ends during the run", "nested graph whose output node carries state between calls"] {
         ctx.require_class(c);
     }
     ctx.prop("random-configurations", ctx.pick(40_000, 400_000), case_strategy(), check);
@@ -495,7 +516,7 @@ pub fn run(ctx: &mut Ctx) {
                             continue;
                         }
                         cases.push(Case { kind, wrapper, bufs_in: bufs_in.clone(), n_out, calls: 4, exact, delay_lens: vec![64, 5, 100], sig_channels: 2, inner_bufs: 2, salt: 7,
-                            sig_len: [None, Some(100), Some(64)][variant as usize], inner_kind: variant, scale_exp });
+                            sig_len: [None, Some(100), Some(64)][variant as usize], inner_kind: variant, scale_exp, self_loop: (scale_exp.unsigned_abs() / 10 % 3) as u8, sparse: scale_exp == -30 });
                     }
                 }
             }
